@@ -35,7 +35,7 @@ theorem step_children' {s s' : State} {e : Event} (hs : step s e = .ok s') (p c 
   -- nsync_note_free adopts / drops a child
   all_goals (try (
     simp only [setPc_notes, link_f_children, eraseChild_f_children, clearParent_f_children,
-      acquire_f_children] at hc
+      acquire_f_children, setAdopted_f_children] at hc
     first
       | (split at hc
          · next hp =>
